@@ -389,7 +389,11 @@ class Tensor:
                 stack.pop()
 
         # Go one tensor at a time and apply the chain rule to get its gradient
-        self.grad = grad
+        if not self.matches_shape(grad):
+            raise RuntimeError(f"Attempt to assign grad ({grad.shape}) to  a Tensor ({self.shape}) that has a different shape")
+        grad_data = grad.data.astype(self.dtype) # own copy, in the dtype of this tensor
+        if self.is_leaf and self._grad is not None: self._grad = self._grad + grad_data
+        else: self._grad = grad_data
         for i, node in enumerate(reversed(ordered_nodes)):
             if node.grad_fn is not None:
                 #print(node.grad_fn)
